@@ -1,0 +1,69 @@
+//go:build verif
+// +build verif
+
+// Contracts for the deductive verification of this package (see /verif/DESIGN.md).
+//
+// This file contains comments only. It is compiled only with the build tag "verif" and adds nothing to
+// the package. The verifier (/verif/govc) reads the "//@" lines, generates verification conditions from
+// the SSA form of the functions named here and discharges them with SMT solvers.
+//
+// Syntax: "//@ func <ssa name>" opens a block; "requires"/"ensures [label] expr"/"loop <n> invariant expr"/
+// "modifies <heap patterns>"/"let x := expr"; a line that starts with none of the keywords continues the
+// previous clause. Labels start with the property id they serve.
+
+package cache
+
+// ---------------------------------------------------------------------------------------------------
+// context.go  (C06)
+// ---------------------------------------------------------------------------------------------------
+
+//@ func WithTTL
+//@   props C06
+//@   requires ctx != nil
+//@   let cell := ttlCell(ctx)
+//@   ensures [C06.min] updateExisting && cell != nil ==>
+//@       result == ctx && *cell == (old(*cell) == 0 ? ttl : (ttl == 0 ? old(*cell) : min(old(*cell), ttl)))
+//@   ensures [C06.fresh] !(updateExisting && cell != nil) ==>
+//@       fresh(ttlCell(result)) && ttlOf(result) == ttl && (cell != nil ==> *cell == old(*cell))
+//@   ensures [C06.skipkept] skipRead(result) == skipRead(ctx)
+//@   ensures [C06.frame] forall p ref :: old(allocated(p)) && p != cell ==> durAt(p) == old(durAt(p))
+//@   replay withttl existing=ttlOf(ctx) ttl=ttl update=updateExisting hascell=ttlCell(ctx)!=nil
+
+//@ func TTL
+//@   props C06 C10
+//@   requires ctx != nil
+//@   ensures [C06.ttlread] result == ttlOf(ctx)
+
+//@ func SkipRead
+//@   props C06 C07
+//@   requires ctx != nil
+//@   ensures [C06.skipread] result == skipRead(ctx)
+
+//@ func WithSkipRead
+//@   props C06
+//@   requires ctx != nil
+//@   ensures [C06.withskip] skipRead(result) && ttlCell(result) == ttlCell(ctx)
+
+//@ func withoutSkipRead
+//@   props C06
+//@   requires ctx != nil
+//@   ensures [C06.withoutskip] !skipRead(result) && ttlCell(result) == ttlCell(ctx)
+
+// detachedContext: exposes parent values, never cancelled, no deadline (C04, C06).
+
+//@ func (detachedContext).Deadline
+//@   props C04 C06
+//@   ensures [C06.detached.deadline] !ok
+
+//@ func (detachedContext).Done
+//@   props C04 C06
+//@   ensures [C06.detached.done] result == nil
+
+//@ func (detachedContext).Err
+//@   props C04 C06
+//@   ensures [C06.detached.err] result == nil
+
+//@ func (detachedContext).Value
+//@   props C04 C06
+//@   requires d.parent != nil
+//@   ensures [C06.detached.value] result == ctxValue(d.parent, key)
